@@ -68,6 +68,7 @@ struct Inner {
     sched: SchedPolicy,
     orders: Vec<Vec<usize>>,
     sections: u64,
+    num_threads: usize,
     counters: BTreeMap<&'static str, u64>,
 }
 
@@ -92,6 +93,7 @@ impl Ctx {
             sched: SchedPolicy::Random,
             orders: Vec::new(),
             sections: 0,
+            num_threads: 4,
             counters: BTreeMap::new(),
         })))
     }
@@ -173,6 +175,10 @@ impl Ctx {
         let mut g = self.0.lock().unwrap();
         g.rng_mode = m;
         g.rng_block = None;
+    }
+    /// Size of the simulated pool as reported by `rayon::current_num_threads()`.
+    pub fn set_num_threads(&self, n: usize) {
+        self.0.lock().unwrap().num_threads = n.max(1);
     }
     pub fn set_sched(&self, p: SchedPolicy) {
         self.0.lock().unwrap().sched = p;
@@ -291,6 +297,6 @@ impl simhook::SimHooks for Hooks {
         self.0.event("rng", buf.len() as u64, crate::fnv(buf));
     }
     fn num_threads(&mut self) -> usize {
-        4
+        (self.0).0.lock().unwrap().num_threads
     }
 }
